@@ -23,6 +23,9 @@ class CallMixin:
             return self.call_name(f.id, node, st)
         if isinstance(f, ast.Attribute):
             return self.call_attr(f, node, st)
+        if isinstance(f, ast.Lambda):
+            args, kw = self.args_of(node, st)
+            return self.apply_func(self.ev(f, st), args, kw, node, st)
         self.unsupported(node, "call form")
 
     def eval_args_for_safety(self, node, st):
@@ -214,6 +217,47 @@ class CallMixin:
             return VInt(self._int_unprinter(v.t))
         self.unsupported(node, "int() of %s" % v.ty)
 
+    def bi_new_stream(self, node, st):
+        if node.args:
+            v = self.ev(node.args[0], st)
+            return VList(INT, v.n, v.a)
+        return self.mk_list([], INT)
+
+    def bi_bytearray(self, node, st):
+        v = self.unopt(self.ev(node.args[0], st), node, st)
+        if not isinstance(v, VStr):
+            self.unsupported(node, "bytearray of %s" % v.ty)
+        return self.bytes_of(v)
+
+    def bytes_of(self, v):
+        blen, barr, _ = self.codec_fns()
+        self.trusted_axioms.add("str.encode/bytes.decode (UTF-8 codec): payload bytes uninterpreted; utf8len(s) >= len(s); "
+                                "decode(encode(s)) == s is assumed, byte counts are proved")
+        return VList(INT, blen(v.t), barr(v.t))
+
+    def codec_fns(self):
+        if not hasattr(self, "_codec"):
+            blen = z3.Function("utf8len", z3.StringSort(), z3.IntSort())
+            barr = z3.Function("utf8bytes", z3.StringSort(), z3.ArraySort(z3.IntSort(), z3.IntSort()))
+            sof = z3.Function("utf8decode", z3.IntSort(), z3.ArraySort(z3.IntSort(), z3.IntSort()), z3.StringSort())
+            self._codec = (blen, barr, sof)
+        return self._codec
+
+    def unopt(self, v, node, st, what="use of None"):
+        if isinstance(v, VOpt):
+            self.oblige(st, "safety", node, z3.Not(v.isnone), what)
+            return v.v
+        return v
+
+    def bi_utf8len(self, node, st):
+        v = self.unopt(self.ev(node.args[0], st), node, st)
+        blen, _, _ = self.codec_fns()
+        return VInt(blen(v.t))
+
+    def bytes_decode(self, b, node, st):
+        _, _, sof = self.codec_fns()
+        return VStr(sof(b.n, b.a))
+
     def bi_bool(self, node, st):
         return VBool(self.ev_bool(node.args[0], st))
 
@@ -305,6 +349,9 @@ class CallMixin:
     def bi_sum(self, node, st):
         v = self.ev(node.args[0], st)
         if isinstance(v, VList) and v.ety == INT:
+            cn = const_int(VInt(z3.simplify(v.n)))
+            if cn is not None and cn <= 16:
+                return VInt(z3.Sum(*[z3.Select(v.a, k) for k in range(cn)]) if cn > 0 else z3.IntVal(0))
             f = self.sum_fn()
             return VInt(f(v.a, v.n))
         if isinstance(v, VTuple):
@@ -441,7 +488,10 @@ class CallMixin:
             # stream read: consume n items from the front
             n = self.num(args[0], node, st)
             self.oblige(st, "safety", node, n.t >= 0, "read(n) with n >= 0")
-            take = z3.If(n.t < l.n, n.t, l.n)
+            # a short read at end of stream silently yields fewer bytes in Python and garbage downstream:
+            # the stream must hold at least n more bytes (obligation on the reader's precondition)
+            self.oblige(st, "safety", node, n.t <= l.n, "stream exhausted: read(n) needs n more bytes")
+            take = n.t
             i = z3.Int(fresh_name("ri"))
             rest = VList(l.ety, z3.simplify(l.n - take), z3.Lambda([i], z3.Select(l.a, i + take)))
             self.mutate(f.value, rest, st)
@@ -466,6 +516,8 @@ class CallMixin:
             self.unsupported(node, "list.count")
         if attr == "copy":
             return VList(l.ety, l.n, l.a)
+        if attr == "decode" and l.ety == INT:
+            return self.bytes_decode(l, node, st)
         self.unsupported(node, "list method " + attr)
 
     # -- sets
@@ -524,6 +576,13 @@ class CallMixin:
         if c is None or not (1 <= c <= 8):
             self.unsupported(node, "to_bytes with symbolic length")
         self.oblige(st, "safety", node, z3.And(v.t >= 0, v.t < 256 ** c), "OverflowError in int.to_bytes(%d)" % c)
+        # the n bytes are introduced as fresh digits b_k in 0..255 with v == sum b_k * 256^(n-1-k): they exist and are
+        # unique exactly under the safety condition above (definitional extension; friendlier to the solver than div/mod)
+        digs = [z3.Int(fresh_name("byte")) for _ in range(c)]
+        if self.spec_depth == 0:
+            st.assume(z3.And(*[z3.And(d >= 0, d <= 255) for d in digs]))
+            st.assume(v.t == z3.Sum(*[d * (256 ** (c - 1 - k)) for k, d in enumerate(digs)]))
+            return self.mk_list([VInt(d) for d in digs], INT)
         items = [VInt((v.t / (256 ** (c - 1 - k))) % 256) for k in range(c)]
         return self.mk_list(items, INT)
 
@@ -773,15 +832,37 @@ class CallMixin:
                 raise Unsupported("transparent callee %s ends with %s" % (c.qual, sig))
             for p, a in bound.items():
                 if s.vars.get(p) is not a and isinstance(a, (VList, VDict, VSet, VRec)):
-                    raise Unsupported("transparent callee %s mutates its argument %s" % (c.qual, p))
-            results.append((zand(*s.pc[base_len:]), v))
+                    if p not in [m.split(".")[0] for m in c.modifies]:
+                        raise Unsupported("transparent callee %s mutates its argument %s (not in modifies)" % (c.qual, p))
+            results.append((zand(*s.pc[base_len:]), v, s))
         if not results:
             # no feasible path: call site unreachable
             st.assume(z3.BoolVal(False))
             return VNone()
         res = results[-1][1]
-        for cnd, v in reversed(results[:-1]):
+        for cnd, v, _s in reversed(results[:-1]):
             res = self.merge(cnd, v, res)
+        # facts established inside the callee (definitional extensions, checked safety conditions) hold for the caller
+        fact = zor(*[cnd for cnd, _, _ in results])
+        st.assume(z3.Implies(zand(*st.guard), fact) if st.guard else fact)
+        # write back arguments the callee mutated in place (declared in its modifies)
+        roots = sorted({m.split(".")[0] for m in c.modifies})
+        if roots:
+            params = [a.arg for a in fdef.args.args]
+            recv = node.func.value if isinstance(node.func, ast.Attribute) else None
+            an = self.arg_nodes(fdef, params, node, recv)
+            for p in roots:
+                if p not in bound or not isinstance(bound[p], (VList, VDict, VSet, VRec)):
+                    continue
+                finals = [(cnd, _s.vars[p]) for cnd, v, _s in results]
+                if all(fv is bound[p] for _, fv in finals):
+                    continue
+                merged = finals[-1][1]
+                for cnd, fv in reversed(finals[:-1]):
+                    merged = ite(cnd, fv, merged)
+                if p not in an:
+                    raise Unsupported("callee %s mutates %s but the argument is not an lvalue" % (c.qual, p))
+                self.mutate(an[p], merged, st)
         return res
 
 
